@@ -89,6 +89,8 @@ for _pid in PROPS:
 # theorems about the helper routines (hand-written code-shaped models, tied by the hk_* correspondence)
 for _pid in ("C01", "C02"):
     PROPS[_pid]["theorem_modules"] = PROPS[_pid]["theorem_modules"] + ["DecProofs.Properties.C02RoundHelpers"]
+for _pid in ("C01", "C02", "C03"):
+    PROPS[_pid]["theorem_modules"] = PROPS[_pid]["theorem_modules"] + ["DecProofs.Properties.C01ArithHelpers"]
 for _pid in ("C01", "C04", "C09", "C10", "C11", "C13"):
     PROPS[_pid]["theorem_modules"] = PROPS[_pid]["theorem_modules"] + ["DecProofs.Properties.C13PackHelpers"]
 
